@@ -1017,6 +1017,7 @@ class ConfigInformation:
 
         # Sets the init tasks (they are part of the full identifier: one that was
         # cached before, when the task was already sealed, is no longer valid)
+        previous_init_tasks = self.init_tasks
         self.init_tasks = init_tasks
         self._full_identifier = None
 
@@ -1027,7 +1028,16 @@ class ConfigInformation:
 
         # Validate the object
         job_context = JobContext(self.job)
-        self.validate_and_seal(job_context)
+        try:
+            self.validate_and_seal(job_context)
+        except Exception:
+            # A rejected task has not been submitted: it has no job (it is not
+            # taken for a submitted task by the tasks it is given to, and it
+            # can be submitted again once completed) and keeps its init tasks
+            self.job = None
+            self.init_tasks = previous_init_tasks
+            self._full_identifier = None
+            raise
 
         # The sealer stops at sealed configurations: when the task was sealed
         # before being submitted, its init tasks still have to be sealed
